@@ -1670,6 +1670,13 @@ class Router:
         except IncongruentTimestampException:
             print("Incongruent Timestamp Detected!")
         except DuplicatedPacketException:
+            # CBF (Annex F.3): a duplicate overheard while the packet is still waiting in the
+            # CBF buffer means another forwarder was faster - drop the buffered copy.
+            cbf_key = (gbc_extended_header.so_pv.gn_addr, gbc_extended_header.sn)
+            with self._cbf_lock:
+                old_timer = self._cbf_buffer.pop(cbf_key, None)
+            if old_timer is not None:
+                old_timer.cancel()
             print("Packet is duplicated")
         except DecodeError as e:
             print(str(e))
